@@ -328,6 +328,16 @@ impl RuntimeData {
             progress_tracker.push(u);
         }
 
+        // objects protected by an ObjectGcGuard are alive, so the objects they refer to are too
+        for object in self.object_list.iter_mut() {
+            unsafe {
+                let t = object.as_mut();
+                if matches!(t.marker, GcMarker::Protected) {
+                    progress_tracker.push(t);
+                }
+            }
+        }
+
         macro_rules! checked_enqueue_value {
             ($val: ident) => {
                 if let Value::Object(mut value) = $val {
